@@ -165,16 +165,26 @@ def r3(ctx, prog):
     res = prog.functions.get(dl.qualname + ".residual")
     if res is None:
         raise AnalysisError("C01-R3: residual closure not found")
+    from .c08 import _resolve_local
     rets = [s for s in walk_no_nested(res.node) if isinstance(s, ast.Return)]
     okr = bool(rets)
-    for s in rets:
-        v = s.value
-        core = v
+
+    def cores(v):
+        """the un-whitened residual expressions a returned value is made of"""
+        if isinstance(v, ast.IfExp):
+            return cores(v.body) + cores(v.orelse)
         if isinstance(v, ast.Call) and norm(v.func).endswith(".dot"):
-            core = v.func.value
-        okr = okr and isinstance(core, ast.BinOp) and \
-            isinstance(core.op, ast.Sub) and norm(core.left) == "model" and \
-            norm(core.right) == "data[mask]"
+            return cores(v.func.value)
+        if isinstance(v, ast.Name):
+            r = _resolve_local(res.node, v)
+            return cores(r) if r is not v else [v]
+        return [v]
+    for s in rets:
+        for core in cores(s.value):
+            okr = okr and isinstance(core, ast.BinOp) and \
+                isinstance(core.op, ast.Sub) and \
+                norm(core.left) == "model" and \
+                norm(core.right) == "data[mask]"
     ctx.check("C01-R3", res, "residual = model - data[mask]", okr,
               "the residual must compare the model with the data on the "
               "same (finite) pixels", node=rets[0] if rets else res.node)
@@ -190,13 +200,25 @@ def r3(ctx, prog):
     ctx.floor("C01-R3", len(mins), 1, "lmfit.minimize calls in do_lmfit")
     for c in mins:
         kws = kwarg(c, "kws")
-        d = {k.value: norm(v) for k, v in zip(kws.keys, kws.values)} \
-            if isinstance(kws, ast.Dict) else {}
+        if isinstance(kws, ast.Name):
+            kws = _resolve_local(dl.node, kws)
+        if not isinstance(kws, ast.Dict):
+            raise AnalysisError("C01-R3: kws= of lmfit.minimize is not a "
+                                "dict display")
+        d = {k.value: norm(v) for k, v in zip(kws.keys, kws.values)}
         ctx.check("C01-R3", dl, "kws x/y = mask[0]/mask[1]",
                   d.get("x") == "mask[0]" and d.get("y") == "mask[1]",
                   "the Jacobian must be evaluated at the same pixels as the "
                   "residual; kws=%s" % d, node=c)
         df = kwarg(c, "Dfun")
+        if df is None:
+            # Dfun may travel in a **kwargs dict:  {'Dfun': f}
+            for x in walk_no_nested(dl.node):
+                if isinstance(x, ast.Dict):
+                    for k_, v_ in zip(x.keys, x.values):
+                        if isinstance(k_, ast.Constant) and \
+                                k_.value == "Dfun":
+                            df = v_
         if df is not None:
             t = prog.resolve_name(prog.modules[dl.module], norm(df))
             fi = prog.functions.get(t)
@@ -248,22 +270,43 @@ def r6(ctx, prog):
                   "source, so a source elongated along the other axis is "
                   "clamped by the tighter bound and its size and flux are "
                   "biased", node=b["sy"][0])
-        up = b["sy"][1][1]
-        ctx.check("C01-R6", fi, "upper size bound " + up,
+        from .c08 import _resolve_local
+        upn = b["sy"][0].value.elts[1]
+        upn = _resolve_local(fi.node, upn)
+        up = norm(upn, 400).replace(" ", "")
+        ctx.check("C01-R6", fi, "upper size bound " + up[:80],
                   "max(xsize,ysize)+1" in up and "FWHM2CC" in up,
                   "the upper bound must contain the island's longest side "
                   "(max(xsize, ysize)+1)*sqrt(2) converted to sigma",
                   node=b["sy"][0])
+        import sympy as sp
+        from .. import sym
+        mod = prog.modules[fi.module]
         for ax in ("xo", "yo"):
-            d = [s for s in walk_no_nested(fi.node) if isinstance(s, ast.Assign)
-                 and isinstance(s.targets[0], ast.Tuple) and
-                 [norm(e) for e in s.targets[0].elts] == [ax + "_min",
-                                                           ax + "_max"]]
-            ok = len(d) == 1 and [norm(e).replace(" ", "")
-                                  for e in d[0].value.elts] == \
-                ["%s-%s_lim" % (ax, ax), "%s+%s_lim" % (ax, ax)]
+            adds = [c for c in walk_no_nested(fi.node)
+                    if isinstance(c, ast.Call) and
+                    isinstance(c.func, ast.Attribute) and
+                    c.func.attr == "add" and c.args and
+                    isinstance(c.args[0], ast.BinOp) and
+                    isinstance(c.args[0].right, ast.Constant) and
+                    c.args[0].right.value == ax]
+            if len(adds) != 1:
+                raise AnalysisError("C01-R6: params.add for %s in %s" %
+                                    (ax, short))
+            c = adds[0]
+            tr = sym.Translator(prog, mod, {}, free_symbols=True)
+            sym.number_locals(tr, fi.node, c.lineno)
+            try:
+                v = tr.expr(kwarg(c, "value"))
+                lo = tr.expr(kwarg(c, "min"))
+                hi = tr.expr(kwarg(c, "max"))
+                ok = sp.simplify((lo + hi) / 2 - v) == 0 and \
+                    sp.simplify(hi - lo) != 0
+            except (sym.Untranslatable, TypeError, AttributeError) as e:
+                raise AnalysisError("C01-R6: bounds of %s: %s" % (ax, e))
             n += 1
             ctx.check("C01-R6", fi, "%s bounded symmetrically" % ax, ok,
-                      "%s must be bounded by +-%s_lim about the peak" %
-                      (ax, ax), node=d[0] if d else fi.node)
+                      "the bounds of %s must be symmetric about its initial "
+                      "value: min=%s max=%s value=%s" % (ax, lo, hi, v),
+                      node=c)
     ctx.floor("C01-R6", n, 3, "bound definitions in the model builders")
